@@ -188,4 +188,15 @@ theorem has_set_ne (d : PDict κ α) {k k' : κ} (v : α) (h : k' ≠ k) : has (
 theorem has_erase_ne (d : PDict κ α) {k k' : κ} (h : k' ≠ k) : has (erase d k) k' = has d k' := by
   simp [has, get?_erase_ne d h]
 
+/-- Two stores under the same key: the second wins (the position in the dict does not change). -/
+theorem set_set_self (d : PDict κ α) (k : κ) (a b : α) : set (set d k a) k b = set d k b := by
+  induction d with
+  | nil => simp [set]
+  | cons x xs ih =>
+    obtain ⟨k', v'⟩ := x
+    simp only [set]
+    split
+    · next hk => simp [set, hk]
+    · next hk => simp [set, hk, ih]
+
 end AioMySensors.PDict
